@@ -6,6 +6,7 @@
 //!   op = 'L'<depth>  layer: address, hash, centre, neighbours, n_hash through get_or_create(depth)
 //!      | 'C'<depth>  cell-size constants of that depth (three latitude regimes)
 //!      | 'K'<depth>  small cone coverage at that depth (uses both tables)
+//!      | 'E'<depth>  elliptical cone, custom variant with delta_depth = 1 (layers d and d + 1)
 //!      | 'S'<depth>  1500 cones smaller than a cell at that depth (layers d..d+4, no recursion)
 //! Output: one line per op result "t<thread> <op> <values>", then "count L<d>=<k>" / "count C<d>=<k>".
 
@@ -70,6 +71,17 @@ fn run_op(op: &str) -> String {
         acc = (acc ^ b.entries.len() as u64).wrapping_mul(1099511628211);
       }
       format!("small_cones digest={:x}", acc)
+    }
+    "E" => {
+      // elliptical cone through the 'custom' variant: the computation is made at depth d + 1, whose layer
+      // must come from the shared table like any other
+      let a = 2.5 / (1u64 << d) as f64;
+      let b = nested::elliptical_cone_coverage_custom(d, 1, 1.0, 0.5, a.min(1.5), 0.4 * a.min(1.5), 0.3);
+      let mut acc: u64 = 1469598103934665603;
+      for e in b.entries.iter() {
+        acc = (acc ^ *e).wrapping_mul(1099511628211);
+      }
+      format!("ell_entries={} digest={:x}", b.entries.len(), acc)
     }
     _ => panic!("unknown op {}", op),
   }
